@@ -90,7 +90,7 @@ func c18Interval(site string) int64 {
 		return int64(flows.SamplingConditionInterval)
 	case c18SiteGC:
 		return int64(30 * time.Second) // stores.gcInterval
-	case c18SiteEvents, c18SiteV2Perform, c18SiteV2Stale, c18SiteV2Source:
+	case c18SiteEvents, c18SiteV2Perform, c18SiteV2Stale, c18SiteV2Source, c18SiteV2CoordEnc, c18SiteV2ObsEnc, c18SiteV2Check:
 		return int64(time.Second) // coordinator cadence (v3 and v2); the harness's head feeder
 	default:
 		return int64(flows.LogCheckInterval)
@@ -214,7 +214,7 @@ func c18Case(t *testing.T, in c18Input, ck func(c18Impl)) {
 				impl.ResumedWithinNs = -1
 			}
 			impl.OthersTicked = true
-			for _, s := range node.others {
+			for _, s := range node.othersOf(in.PanicSite) {
 				if f, l := pr.okInWindow(s); s != in.PanicSite && (f == 0 || l == 0) {
 					impl.OthersTicked = false
 				}
@@ -472,7 +472,17 @@ func c18Edge() []c18Input {
 	for _, at := range []int64{1, c18ms, c18s - 1, c18s, c18s + 1, c18s + 137*c18ms, 2 * c18s, 5*c18s + 1, 30 * c18s, 30*c18s + 137*c18ms} {
 		out = append(out, c18Input{Family: "v2", Scenario: "close", CloseAtNs: at})
 	}
+	// … panics on its background goroutines (coordinator poll loop: bare goroutine; observer head loop: behind
+	// internal/util.RecoverableService), once and repeatedly, then Close; and Close shortly after a panic
 	for _, site := range c18SitesV2 {
+		for count := 1; count <= 12; count++ {
+			out = append(out, c18Input{Family: "v2", Scenario: "panic", PanicSite: site, PanicAtCall: 1 + count%3, PanicCount: count})
+		}
+		for _, at := range []int64{c18ms, c18s + 137*c18ms, 5 * c18s, 10*c18s - 1, 10 * c18s, 10*c18s + 1, 10*c18s + 500*c18ms, 11*c18s + 137*c18ms} {
+			out = append(out, c18Input{Family: "v2", Scenario: "panic-close", PanicSite: site, PanicAtCall: 2, PanicCount: 1, CloseAtNs: at})
+		}
+	}
+	for _, site := range []string{c18SiteV2Perform, c18SiteV2Stale, c18SiteV2Source, c18SiteV2Check} {
 		for _, hold := range []int64{500 * c18ms, 3 * c18s, 15 * c18s} {
 			for _, at := range []int64{1, c18ms, hold / 2, hold - 1, hold + c18ms} {
 				out = append(out, c18Input{Family: "v2", Scenario: "hold-close", HoldSite: site, HoldAtCall: 3, HoldNs: hold, CloseAtNs: at})
@@ -504,7 +514,18 @@ func c18Gen(r *Rng) c18Input {
 		return in
 	case 12: // the v2 plugin
 		in.Family = "v2"
-		if r.Bool() {
+		if r.Chance(40) {
+			in.PanicSite = c18SitesV2[r.Intn(len(c18SitesV2))]
+			in.PanicAtCall = r.Range(1, 6)
+			if r.Bool() {
+				in.Scenario = "panic"
+				in.PanicCount = r.Range(1, 12)
+			} else {
+				in.Scenario = "panic-close"
+				in.PanicCount = r.Range(1, 8)
+				in.CloseAtNs = grid(12)
+			}
+		} else if r.Bool() {
 			in.Scenario = "close"
 			in.CloseAtNs = grid(35)
 			if r.Chance(20) {
@@ -513,7 +534,7 @@ func c18Gen(r *Rng) c18Input {
 			}
 		} else {
 			in.Scenario = "hold-close"
-			in.HoldSite = c18SitesV2[r.Intn(len(c18SitesV2))]
+			in.HoldSite = []string{c18SiteV2Perform, c18SiteV2Stale, c18SiteV2Source, c18SiteV2Check}[r.Intn(4)]
 			in.HoldAtCall = r.Range(1, 6)
 			in.HoldNs = []int64{137 * c18ms, c18s, 3 * c18s, 7 * c18s, 19 * c18s}[r.Intn(5)]
 			in.CloseAtNs = []int64{0, 1, c18ms, in.HoldNs / 2, in.HoldNs - 1, in.HoldNs, in.HoldNs + 1, in.HoldNs + 500*c18ms}[r.Intn(8)]
